@@ -184,6 +184,45 @@ def h_refit(B, s1="2d", s2="2d", op="none", flags=None):
         B.eq(f"refit == fresh fit: {k}", got[k], exp[k])
 
 
+def h_refit_class(B, cls="ExtendedEOF", n=5, p=3, rot=None, extra=None):
+    """second fit of one object, for the model classes that keep flags / inner models next to their results
+    (rotators: `sorted`, ExtendedEOF: inner EOF, HilbertEOF / ComplexEOF: augmented data): every stored array must be that of a fresh object"""
+    extra = dict(extra or {})
+    cplx = cls == "ComplexEOF"
+    base = "EOF" if rot else cls
+    D1 = da2d(B, "d", n, p, cplx)
+    D2 = da2d(B, "e", n, p, cplx)
+    k = 3 if rot else 2
+    if rot:
+        m1 = M.single(base, n_modes=p, solver="full").fit(D1, "time")
+        m2 = M.single(base, n_modes=p, solver="full").fit(D2, "time")
+        obj_ = getattr(xs_mod(), "EOFRotator")(n_modes=k, **rot)
+        obj_.fit(m1)
+        B.covers("EOFRotator.fit (second fit of the same rotator object on another model)")
+        r = B.completes("second fit runs", lambda: obj_.fit(m2))
+        fresh = getattr(xs_mod(), "EOFRotator")(n_modes=k, **rot).fit(m2)
+    else:
+        obj_ = M.single(cls, n_modes=k, solver="full", **extra).fit(D1, "time")
+        B.covers(f"{cls}.fit (second fit on the same object)")
+        r = B.completes("second fit runs", lambda: obj_.fit(D2, "time"))
+        fresh = M.single(cls, n_modes=k, solver="full", **extra).fit(D2, "time")
+    if r is None:
+        return
+    keys = [k_ for k_ in fresh.data.keys() if k_ not in ("input_data",)]
+    B.check("re-fitted object stores the same entries as a fresh one", sorted(obj_.data.keys()) == sorted(fresh.data.keys()), f"{sorted(obj_.data.keys())} vs {sorted(fresh.data.keys())}")
+    for key in keys:
+        if key in obj_.data:
+            B.eq(f"re-fitted == fresh: data[{key}]", obj_.data[key], fresh.data[key])
+    B.eq("re-fitted == fresh: components()", obj_.components(), fresh.components())
+    B.eq("re-fitted == fresh: scores()", obj_.scores(), fresh.scores())
+
+
+def xs_mod():
+    import xeofs.single as xs_
+
+    return xs_
+
+
 def h_refit_pop(B, n=6, p=3, npca=3):
     """POP keeps a 'sorted' flag next to its results: a second fit must give what a fresh model gives"""
     D1 = da2d(B, "d", n, p)
@@ -274,6 +313,10 @@ def configs(tier):
             for o2 in OPS:
                 if o1 != o2:
                     add("h_frame2", f"frame2|{o1};{o2}", op1=o1, op2=o2)
+    add("h_refit_class", "refit|ExtendedEOF", cls="ExtendedEOF", n=6, p=2, extra={"tau": 1, "embedding": 2})
+    add("h_refit_class", "refit|HilbertEOF", cls="HilbertEOF", n=4, p=2, extra={"padding": "none"})
+    add("h_refit_class", "refit|ComplexEOF", cls="ComplexEOF", n=4, p=2)
+    add("h_refit_class", "refit|EOFRotator object on a second model|k3", rot={"power": 1})
     cfgp = {"key": "refit|POP|n6p3", "fn": "h_refit_pop", "params": {"n": 6, "p": 3, "npca": 3}, "options": {"full_rank": True, "budget_s": 150 if tier == "quick" else 900}}
     out.append(cfgp)
     add("h_cross_frame", "cross|frame|rotator", op="rotator")
